@@ -358,6 +358,11 @@ def check(run):
     check_cacg(run, A)
     check_bingham(run, A)
     check_weights_and_gaussian(run, A)
+    # the options that select / bound the sanitisers reach the component trainer that applies them: a wrapper that leaves one out silently fits with the callee's default
+    # (covariance_norm='trace' asked for, 'eigenvalue' applied: the stored covariance does not have unit trace)
+    from ..opt import check_forwarding
+    check_forwarding(run, A, ('pb_bss.distribution.',), only=('covariance_norm', 'eigenvalue_floor', 'min_concentration', 'max_concentration', 'hermitize', 'covariance_type',
+                                                             'fixed_covariance', 'affiliation_eps'))
     from ..opt import check_dropped_sanitisers
     run.floor('floors / clamps of the distribution, initializer and utility modules', check_dropped_sanitisers(run, A, ('pb_bss.distribution.', 'pb_bss.initializer.', 'pb_bss.utils')), 20)
     sel.check_principal(run, A, 'pb_bss.utils::get_pca')
